@@ -54,7 +54,8 @@ ASSUMPTIONS = [
     "the unseeded default_rng() inside fast_mvn.sample_mvn_from_precision (a C18 finding) is replaced by a seeded generator and numpy's global generator is seeded before each run, so two runs are comparable",
     "the index dictionaries cline_idxs/dd1_idxs/dd2_idxs of the legacy implementations are checked on the implementation side to be the positions of each id in the arrays",
 ]
-EXPLANATION = ("Model: Model/Train.v (add_observations guard, subset_observed, SparseDrugCombo._add_observations, "
+EXPLANATION = ("Model: Model/TrainScreen.v (id-level rows of a screen built by the shared constructor model, exact decoding of "
+               "observation bit patterns) and Model/Train.v (add_observations guard, subset_observed, SparseDrugCombo._add_observations, "
                "create_single_treatment_effect_map, SparseDrugComboInteraction._add_observations with three repair switches, "
                "downstream projection).  The harness probes the real interaction model once to find which switches describe "
                "it (all false on the unchanged tree) and requires exact correspondence with that variant, and with the fully "
